@@ -112,7 +112,8 @@ Step == l' = l + 1 /\ UNCHANGED <<k, st>>
 Mark(c) == acts' = IF Len(acts) > 0 /\ SubSeq(acts, Len(acts), Len(acts)) = c THEN acts ELSE acts \o c
 
 TStart == /\ Is("start") /\ Step /\ PStart /\ Mark("S")
-          /\ Assert(Case.kd = Rec[k].kd /\ Case.v = Rec[k].v, "a record's kind/variant is not the one the specification derives from its id")
+          /\ \E c \in {Case} :       \* (derived once)
+                Assert(c.kd = Rec[k].kd /\ c.v = Rec[k].v, "a record's kind/variant is not the one the specification derives from its id")
           /\ UNCHANGED <<spec, nilbad>>
 TCompileErr == Is("compile_err") /\ Step /\ PCompileErr /\ Mark("E") /\ UNCHANGED <<spec, nilbad>>
 TCompilePanic == Is("compile_panic") /\ Step /\ PCompilePanic /\ Mark("X") /\ UNCHANGED <<spec, nilbad>>
@@ -145,9 +146,16 @@ TFinish == /\ st = "run" /\ l > Len(Ev) /\ ph \in {"rejected", "ended"}
            /\ UNCHANGED <<k, l, spec, nilbad, acts, ph, written, term>>
 
 \* the next event is not a step of the protocol (or the log ends too early)
+\* ENABLED of the trace actions, spelled out through the guards of the protocol actions (the effects - re-deriving the case,
+\* the reference run - are always possible and are not evaluated a second time just to find that out)
+CanStep == \/ (Is("start") /\ PStartG)
+           \/ (st = "run" /\ l <= Len(Ev) /\ Ev[l].e \in {"compile_err", "compile_panic", "compile_ok"} /\ PCompileG)
+           \/ (st = "run" /\ l <= Len(Ev) /\ Ev[l].e \in {"gw", "gr"} /\ PGlobalRunG(SubSeq(Ev, l, RunEnd - 1)))
+           \/ (Is("print") /\ PRunG)
+           \/ (Is("term") /\ PTerminalG(Ev[l].n))
+           \/ (st = "run" /\ l > Len(Ev) /\ ph \in {"rejected", "ended"})
 TStuck == /\ st = "run"
-          /\ ~(ENABLED TStart \/ ENABLED TCompileErr \/ ENABLED TCompilePanic \/ ENABLED TCompileOk \/ ENABLED TGlobals
-               \/ ENABLED TPrint \/ ENABLED TTerminal \/ ENABLED TFinish)
+          /\ ~CanStep
           /\ st' = "stuck"
           /\ Result(IF l > Len(Ev) THEN "malformed-trace"
                     ELSE IF Ev[l].e \in {"gw", "gr"} /\ ph \in {"accepted", "running"} THEN "read-of-unwritten-global"
